@@ -266,7 +266,7 @@ func (run *PropRun) report(w *World, t0 time.Time) int {
 	for _, r := range failed {
 		if kf := isKnown(r.Ob.Name, shortFuncName(r.VC.root.String())); kf != nil {
 			if !knownPrinted[kf.ob] {
-				fmt.Printf("KNOWN-FINDING: property=%s %s\n", id, kf.text)
+				fmt.Printf("KNOWN-FINDING: property=%s %s\n", id, strings.TrimSpace(strings.TrimPrefix(kf.text, "property="+id)))
 				knownPrinted[kf.ob] = true
 			}
 			total-- // known findings are not part of the claimed obligation set
